@@ -1,3 +1,4 @@
--- This module serves as the root of the `SasLexer` library.
--- Import modules here that should be built as part of the library.
-import SasLexer.Basic
+-- Root of the `SasLexer` library: everything that `lake build SasLexer` must check.
+import SasLexer.Lex.Main
+import SasLexer.Spec.Basic
+import SasLexer.Properties.C03
